@@ -54,7 +54,7 @@ theorem C16_variant_no_parent (e : Enum) (hv : validate (.enum e) = []) (v : Var
 /-- a message that the pass over one payload member of a variant produces is in `validate`'s result -/
 theorem variant_field_pass_reported (e : Enum) (v : Variant) (hvm : v ∈ e.variants) (f : Field) (hf : f ∈ v.fields) (msg : String)
     (hstep : ∀ es, msg ∈ parentTypePass f (attrsByKind (DataType.enum e).attrs)
-      (validateParentAttrs v.namedFields f.attrs.parentAttrs (attrsByKind (DataType.enum e).attrs)
+      (validateParentAttrs v.namedFields (variantWrittenAs v (DataType.enum e).attrs) f.attrs.parentAttrs (attrsByKind (DataType.enum e).attrs)
         (barkAtMemberAttr f.attrs.childAttrs.length "child" es))) :
     msg ∈ validate (.enum e) := by
   apply variant_pass_reported e v hvm
@@ -802,12 +802,12 @@ theorem groupedMembers_from (input : Struct) (ctx : ImplContext) (fc : FieldCont
 def nestedTypeMsg (i : Member × Option TS) : String :=
   "Field '" ++ i.1.str ++ "' should have type here, e.g. '" ++ i.1.str ++ ": SomeStruct'"
 
-theorem validateParentAttrs_reports_type (named : Bool) (pas : List ParentAttr) (byKind : List (TraitAttrCore × Kind)) (es : Errors)
+theorem validateParentAttrs_reports_type (named : Bool) (hf' : List (TraitAttrCore × Kind × TypeHint)) (pas : List ParentAttr) (byKind : List (TraitAttrCore × Kind)) (es : Errors)
     (pa : ParentAttr) (hpa : pa ∈ pas) (a : TraitAttrCore) (k : Kind) (hx : (a, k) ∈ byKind) (hk : k.isFrom = true)
     (happ : pa.containerTy.isNone = true ∨ isSomeEq pa.containerTy a.ty = true)
     (fs : List ParentChildField) (hfs : pa.childFields = some fs) (f : ParentChildField) (hf : f ∈ fs)
     (i : Member × Option TS) (hi : i ∈ f.subPath) (hnone : i.2.isNone = true) :
-    nestedTypeMsg i ∈ validateParentAttrs named pas byKind es := by
+    nestedTypeMsg i ∈ validateParentAttrs named hf' pas byKind es := by
   unfold validateParentAttrs
   simp only
   refine mem_foldl_of_step _ _ _ _ pa hpa (fun pa' es hm => ?_) (fun es => ?_)
@@ -875,7 +875,7 @@ theorem C16_nested_parent_types_struct (st : Struct) (hv : validate (.struct st)
       simp only
       apply ext_validateMemberErrorInstrs
       apply ext_parentTypePass
-      exact validateParentAttrs_reports_type _ _ _ _ pa hpa a k hx hk happ fs hfs f hf i hi (by simp [hn])
+      exact validateParentAttrs_reports_type _ _ _ _ _ pa hpa a k hx hk happ fs hfs f hf i hi (by simp [hn])
     rw [hv] at this
     cases this
 
@@ -894,7 +894,7 @@ theorem C16_nested_parent_types_variant (e : Enum) (hv : validate (.enum e) = []
       apply variant_field_pass_reported e v hvm x hxm
       intro es
       apply ext_parentTypePass
-      exact validateParentAttrs_reports_type _ _ _ _ pa hpa a k hx hk happ fs hfs f hf i hi (by simp [hn])
+      exact validateParentAttrs_reports_type _ _ _ _ _ pa hpa a k hx hk happ fs hfs f hf i hi (by simp [hn])
     rw [hv] at this
     cases this
 
@@ -1299,10 +1299,11 @@ theorem C16_derive_only_findings (b : Back) (node : RawInput) (input : DataType)
       simp only [hs, Option.some.injEq] at hp
       subst hp
       simp only [hs, Except.map] at h
-      cases hv : validate (.struct st) with
-      | cons m ms => simp [hv] at h
+      cases hva : validateAll (.struct st) with
+      | cons m ms => simp [hva] at h
       | nil =>
-        simp only [hv] at h
+        have hv := validate_of_validateAll_nil _ hva
+        simp only [hva] at h
         cases hd : dataTypeImpls (.struct st) with
         | ok impls => simp [hd] at h
         | error e =>
@@ -1323,10 +1324,11 @@ theorem C16_derive_only_findings (b : Back) (node : RawInput) (input : DataType)
       simp only [hs, Option.some.injEq] at hp
       subst hp
       simp only [hs, Except.map] at h
-      cases hv : validate (.enum en) with
-      | cons m ms => simp [hv] at h
+      cases hva : validateAll (.enum en) with
+      | cons m ms => simp [hva] at h
       | nil =>
-        simp only [hv] at h
+        have hv := validate_of_validateAll_nil _ hva
+        simp only [hva] at h
         cases hd : dataTypeImpls (.enum en) with
         | ok impls => simp [hd] at h
         | error e =>
